@@ -248,6 +248,11 @@ namespace awkward {
     , count_writes_(0)
     , count_nanoseconds_(0)
   {
+    if (recursion_max_depth < 1  ||  stack_max_depth < 0) {
+      delete [] stack_buffer_; delete [] current_which_; delete [] current_where_;
+      delete [] do_recursion_depth_; delete [] do_stop_; delete [] do_i_;
+      throw std::invalid_argument(std::string("recursion_max_depth must be at least 1") + FILENAME(__LINE__));
+    }
     std::vector<std::string> tokenized;
     std::vector<std::pair<int64_t, int64_t>> linecol;
     tokenize(tokenized, linecol);
@@ -331,7 +336,7 @@ namespace awkward {
   const std::string
   ForthMachineOf<T, I>::decompiled_segment(int64_t segment_position,
                                            const std::string& indent) const {
-    if ((IndexTypeOf<int64_t>)segment_position < 0  ||  (IndexTypeOf<int64_t>)segment_position + 1 >= bytecodes_offsets_.size()) {
+    if (segment_position < 0  ||  (IndexTypeOf<int64_t>)segment_position + 1 >= bytecodes_offsets_.size()) {
       throw std::runtime_error(
         std::string("segment ") + std::to_string(segment_position)
         + std::string(" does not exist in the bytecode") + FILENAME(__LINE__));
@@ -1230,10 +1235,17 @@ namespace awkward {
       current_error_ = util::ForthError::not_ready;
       return current_error_;
     }
+    if (current_error_ == util::ForthError::is_done) {
+      current_error_ = util::ForthError::none;
+    }
     if (current_error_ != util::ForthError::none) {
       return current_error_;
     }
 
+    if (recursion_current_depth_ == recursion_max_depth_) {
+      current_error_ = util::ForthError::recursion_depth_exceeded;
+      return current_error_;
+    }
     recursion_target_depth_.push(recursion_current_depth_);
     bytecodes_pointer_push(dictionary_bytecodes_[(IndexTypeOf<int64_t>)index] - BOUND_DICTIONARY);
 
